@@ -2,14 +2,16 @@
   C04 — Quoting of strings, identifiers and comments is lossless and inescapable.
   Only property theorems, non-vacuity examples and counter-example witnesses live here.
 
-  Level of the statements: `_extract_string` (what the tokenizer returns after the opening delimiter, and what it leaves
-  unread) and `_scan_comment` (what is left unread after a block comment).  The dispatch that gets there
-  (`_scan` → `_scan_keywords` → `_scan_string`/`_scan_identifier`/`_scan_comment`) is NOT modelled; the token-level
-  statement is evaluated on the real code by the search oracle.
+  Two levels of statements.  (1) `_extract_string` (what the tokenizer returns after the opening delimiter, and what it
+  leaves unread) and `_scan_comment` (what is left unread after a block comment).  (2) Token level (second half of the
+  file): `lexLoop` of Model/StrLex.lean — the `_scan` loop with the dispatch `_scan` → `_scan_keywords` →
+  `_scan_string` / `_scan_identifier` / `_scan_comment` modelled, and everything else the scanner does (numbers,
+  keywords, operators, variables) an arbitrary parameter `other`: the theorems hold for every `other`.
 -/
 import SqlglotModel.Proofs.Str
 import SqlglotModel.Proofs.StrFast
 import SqlglotModel.Proofs.Comment
+import SqlglotModel.Proofs.StrLex
 import SqlglotModel.Generated.C04
 
 namespace SqlglotModel.Properties.C04
@@ -103,6 +105,157 @@ example : scanCL true (sanitizeComment (· == ' ') "*/ x /* y /".toList ++ '*' :
 /-- without the sanitising step the same text swallows / cuts the statement (why the guard is essential) -/
 example : scanCL true ("a */ x".toList ++ '*' :: '/' :: " z".toList) ≠ some " z".toList := by decide +kernel
 
+/-! ## Token level -/
+
+/-- The SQL written for a string literal — `start` (QUOTE_START, or a prefix such as N') + `escape_str(v)` + closing
+    delimiter — followed by a blank, lexes to exactly ONE token of the literal's kind whose text is `v`: for every value
+    `v`, every well-formed pairing whose dispatch tables pass `strDispatchOk`, and every behaviour `other` of the rest of
+    the scanner.  `isSpace` stands for `str.isspace`. -/
+theorem literal_single_token (L : LexCfg) (isSpace : Char → Bool) (other : List Char → Step) (start : List Char)
+    (c : Cfg) (kind : TokKind) (hd : strDispatchOk L start c kind = true) (hw : wf c = true) (hf : wfFast c = true)
+    (hsp : ∀ c0, start.head? = some c0 → isSpace c0 = false) (v : List Char) :
+    lexLoop L isSpace other (start ++ escapeStr c v ++ [c.q, ' ']) = some (some [⟨kind, v⟩]) := by
+  have hb := boundary_literal L isSpace other start c kind (strDispatch_iff L start c kind hd) (wf_iff c hw) hsp v
+    (fun rest hr => extract_roundtrip c hw hf v rest hr) []
+  have : start ++ escapeStr c v ++ [c.q, ' '] = (start ++ escapeStr c v ++ [c.q]) ++ [' '] := by simp
+  rw [this, hb, lexLoop_blank_only]
+  rfl
+
+example : lexLoop exLexBase (· == ' ') (fun _ => .unsupported) ("N'".toList ++ escapeStr exBase "it's".toList ++ ['\'', ' '])
+    = some (some [⟨.national, "it's".toList⟩]) :=
+  literal_single_token exLexBase _ _ _ exBase .national (by decide +kernel) (by decide +kernel) (by decide +kernel)
+    (by intro c0 h; simp at h; subst h; decide) _
+
+/-- … and a quoted identifier to exactly one IDENTIFIER token named `v`. -/
+theorem identifier_single_token (L : LexCfg) (isSpace : Char → Bool) (other : List Char → Step) (i0 : Char) (c : Cfg)
+    (hd : idDispatchOk L i0 c = true) (hsup : c.supports = false) (hw : wf c = true) (hf : wfFast c = true)
+    (hsp : isSpace i0 = false) (v : List Char) :
+    lexLoop L isSpace other (i0 :: identifierSql c v ++ [c.q, ' ']) = some (some [⟨.ident, v⟩]) := by
+  have hb := boundary_identifier L isSpace other i0 c hd hsp v
+    (fun rest hr => identifier_roundtrip c hsup hw hf v rest hr) []
+  have : i0 :: identifierSql c v ++ [c.q, ' '] = (i0 :: identifierSql c v ++ [c.q]) ++ [' '] := by simp
+  rw [this, hb, lexLoop_blank_only]
+  rfl
+
+example : lexLoop exLexBase (· == ' ') (fun _ => .unsupported) ('"' :: identifierSql exIdent "a\"b".toList ++ ['"', ' '])
+    = some (some [⟨.ident, "a\"b".toList⟩]) :=
+  identifier_single_token exLexBase _ _ '"' exIdent (by decide +kernel) rfl (by decide +kernel) (by decide +kernel) (by decide) _
+
+/-- Literals compose: a literal is a complete piece of text (`Boundary`), and complete pieces separated by a blank lex
+    to the concatenation of their tokens — so `a` and `b` in `comment_transparent` may be any such sequences. -/
+theorem literal_boundary (L : LexCfg) (isSpace : Char → Bool) (other : List Char → Step) (start : List Char)
+    (c : Cfg) (kind : TokKind) (hd : strDispatchOk L start c kind = true) (hw : wf c = true) (hf : wfFast c = true)
+    (hsp : ∀ c0, start.head? = some c0 → isSpace c0 = false) (v : List Char) :
+    Boundary L isSpace other (start ++ escapeStr c v ++ [c.q]) [⟨kind, v⟩] :=
+  boundary_literal L isSpace other start c kind (strDispatch_iff L start c kind hd) (wf_iff c hw) hsp v
+    (fun rest hr => extract_roundtrip c hw hf v rest hr)
+
+theorem identifier_boundary (L : LexCfg) (isSpace : Char → Bool) (other : List Char → Step) (i0 : Char) (c : Cfg)
+    (hd : idDispatchOk L i0 c = true) (hsup : c.supports = false) (hw : wf c = true) (hf : wfFast c = true)
+    (hsp : isSpace i0 = false) (v : List Char) :
+    Boundary L isSpace other (i0 :: identifierSql c v ++ [c.q]) [⟨.ident, v⟩] :=
+  boundary_identifier L isSpace other i0 c hd hsp v (fun rest hr => identifier_roundtrip c hsup hw hf v rest hr)
+
+theorem boundary_compose (L : LexCfg) (isSpace : Char → Bool) (other : List Char → Step) (a b : List Char)
+    (ts us : List Tok) (ha : Boundary L isSpace other a ts) (hb : Boundary L isSpace other b us) :
+    Boundary L isSpace other (a ++ ' ' :: b) (ts ++ us) :=
+  boundary_append L isSpace other a b ts us ha hb
+
+/-- opaque tokens of the rest of the scanner are complete pieces too, by their specification -/
+theorem opaque_boundary (L : LexCfg) (isSpace : Char → Bool) (other : List Char → Step) (w : List Char) (t : Tok)
+    (h : Opaque L isSpace other w t) : Boundary L isSpace other w [t] :=
+  boundary_opaque L isSpace other w t h
+
+/-- A generated block comment between two pieces of SQL does not change the tokens: for every complete prefix `a`
+    (literals, identifiers, opaque tokens, comments — see the boundary theorems), every comment text `cm` and EVERY
+    continuation `b`.  The hypotheses on `isSpace` (= `str.isspace`, which agrees with `strip()` emptiness) are checked
+    against CPython by the harness: `/` and `*` are not blank, and no blank character upper-cases to the third
+    character of a trie key extending `/*` (the hint start `/*+`). -/
+theorem comment_transparent (L : LexCfg) (isSpace : Char → Bool) (other : List Char → Step)
+    (hd : comDispatchOk L = true) (hs0 : isSpace '/' = false) (hs1 : isSpace '*' = false)
+    (hext : ∀ x, (x = ' ' ∨ isSpace x = true) → (commentExts L).contains (upperAscii x) = false)
+    (a : List Char) (ts : List Tok) (ha : Boundary L isSpace other a ts) (cm b : List Char) (hc : cm ≠ []) :
+    lexLoop L isSpace other (a ++ ' ' :: '/' :: '*' :: sanitizeComment isSpace cm ++ '*' :: '/' :: ' ' :: b)
+      = lexLoop L isSpace other (a ++ ' ' :: b) := by
+  have hcb := boundary_comment L isSpace other hd hs0 hs1 hext cm hc
+  have h1 := boundary_append L isSpace other a _ ts [] ha hcb b
+  have h2 := ha b
+  have : a ++ ' ' :: '/' :: '*' :: sanitizeComment isSpace cm ++ '*' :: '/' :: ' ' :: b
+      = (a ++ ' ' :: ('/' :: '*' :: sanitizeComment isSpace cm ++ ['*', '/'])) ++ ' ' :: b := by simp
+  rw [this, h1, h2]
+  simp
+
+example : lexLoop exLexBase (· == ' ') (fun _ => .unsupported)
+      ("'x'".toList ++ ' ' :: '/' :: '*' :: sanitizeComment (· == ' ') "*/ '".toList ++ '*' :: '/' :: ' ' :: "'y'".toList)
+    = lexLoop exLexBase (· == ' ') (fun _ => .unsupported) ("'x'".toList ++ ' ' :: "'y'".toList) :=
+  comment_transparent exLexBase _ _ (by decide +kernel) (by decide) (by decide)
+    (by intro x hx; rcases hx with rfl | hx
+        · decide
+        · have : x = ' ' := by simpa using hx
+          subst this; decide)
+    _ _ (literal_boundary exLexBase _ _ "'".toList exBase .str (by decide +kernel) (by decide +kernel) (by decide +kernel)
+      (by intro c0 h; simp at h; subst h; decide) "x".toList) _ _ (by decide)
+
+/-- `maybe_comment` (plain form): whatever comments are attached, the emitted text is the SQL followed by block comments
+    only, and it lexes to the tokens of the SQL alone. -/
+theorem maybe_comment_transparent (L : LexCfg) (isSpace : Char → Bool) (other : List Char → Step)
+    (hd : comDispatchOk L = true) (hs0 : isSpace '/' = false) (hs1 : isSpace '*' = false)
+    (hext : ∀ x, (x = ' ' ∨ isSpace x = true) → (commentExts L).contains (upperAscii x) = false)
+    (sql : List Char) (ts : List Tok) (ha : Boundary L isSpace other sql ts) (comments : List (List Char)) (b : List Char) :
+    lexLoop L isSpace other (maybeComment isSpace sql comments ++ ' ' :: b) = lexLoop L isSpace other (sql ++ ' ' :: b) := by
+  rw [boundary_maybeComment L isSpace other hd hs0 hs1 hext comments sql ts ha b, ha b]
+
+/-! ### raw and byte strings -/
+
+/-- `rawstring_sql` (backslashes doubled when the backslash is a string escape, then `escape_str(escape_backslash=False)`)
+    writes exactly what `escape_str` writes, hence the raw literal round-trips like a plain one. -/
+theorem raw_roundtrip (c : Cfg) (h : wf c = true) (hf : wfFast c = true) (hr : wfRaw c = true) (v rest : List Char)
+    (hq : rest.head? ≠ some c.q) :
+    extract c (rawSql c v ++ c.q :: rest) = .ok v rest := by
+  rw [rawSql_eq c hr v]
+  exact extract_roundtrip c h hf v rest hq
+
+example : extract exBigquery (rawSql exBigquery "a\\'b".toList ++ ['\'']) = .ok "a\\'b".toList [] :=
+  raw_roundtrip exBigquery (by decide +kernel) (by decide +kernel) (by decide +kernel) _ _ (by decide)
+
+/-- `bytestring_sql` (`escape_str(escape_backslash=False)` on the byte pairing) round-trips every value WITHOUT a
+    backslash … -/
+theorem byte_roundtrip_partial (c : Cfg) (h : wf c = true) (hf : wfFast c = true) (v rest : List Char)
+    (hv : '\\' ∉ v) (hq : rest.head? ≠ some c.q) :
+    extract c (byteSql c v ++ c.q :: rest) = .ok v rest := by
+  rw [byteSql_eq c v hv]
+  exact extract_roundtrip c h hf v rest hq
+
+example : extract exPostgresByte (byteSql exPostgresByte "a'\n".toList ++ ['\'', ' ']) = .ok "a'\n".toList [' '] :=
+  byte_roundtrip_partial exPostgresByte (by decide +kernel) (by decide +kernel) _ _ (by decide) (by decide)
+
+/-- … and not the others: the byte pairing itself is well-formed, the defect is `escape_backslash=False`
+    (known finding C04-bytestring-backslash). -/
+theorem byte_backslash_counterexample :
+    wf exPostgresByte = true ∧ wfFast exPostgresByte = true
+    ∧ extract exPostgresByte (byteSql exPostgresByte ['\\'] ++ [exPostgresByte.q]) = .err
+    ∧ extract exPostgresByte (byteSql exPostgresByte ['\\', 'n'] ++ [exPostgresByte.q]) = .ok ['\n'] [] := by
+  decide +kernel
+
+/-! ### dispatch tables and the extended pairings extracted from the current source -/
+
+open SqlglotModel.Generated.C04 in
+/-- For every dialect and every tokenizer core: the generator's string start, national prefix, byte-string start,
+    identifier start and `/*` are dispatched by `_scan` to the scanner and pairing the theorems above are about
+    (incl. bigquery, where the only trie keys extending the quote are the triple quotes and the quote is
+    backslash-escaped). -/
+theorem generated_dispatch : (dialects.all dialectDispatchOk) = true := by
+  decide +kernel
+
+open SqlglotModel.Generated.C04 in
+/-- byte-string pairings (dialects with a BYTE_START) are well-formed, and `rawstring_sql` agrees with `escape_str`
+    for every string pairing -/
+theorem generated_wf_byte_raw :
+    (dialects.all fun d =>
+      (d.byteCfgs.isEmpty || (cfgsOk wf d.byteCfgs [] && cfgsOk wfFast d.byteCfgs []))
+      && cfgsOk wfRaw d.strCfgs []) = true := by
+  decide +kernel
+
 /-! ### the tables extracted from the current source (finite decision tables, decided completely) -/
 
 open SqlglotModel.Generated.C04 in
@@ -132,9 +285,12 @@ theorem generated_comment_tables :
   decide +kernel
 
 open SqlglotModel.Generated.C04 in
-/-- shape of the generator functions the model mirrors (ast facts); the table is not empty -/
+/-- shape of the generator functions the model mirrors (ast facts): among them that `maybe_comment` ends in
+    `f"{sql} {' '.join(comments_list)}"` and that its only string constants are `/*`, `*/` and a blank — it can emit block
+    comments only, never `--`; the table is not empty -/
 theorem generated_shapes :
     identifierReplaceShape = true ∧ identifierEscapeDoubles = true ∧ escapeStrReplaceLast = true
+    ∧ maybeCommentPlainForm = true ∧ maybeCommentConstants = [" ", "*/", "/*"]
     ∧ dialects ≠ [] := by
   decide +kernel
 
